@@ -127,7 +127,7 @@ inductive Ctor
   | map_array | lower_case | filter_array | unique_array | array_sub | array_and | filter_mapping | map_mapping
   | keys | values | allocate_mapping | map_compose | map_compose_eq | save_array | save_string | save_mapping
   | save_nested | copy_nested | restore_nested | restore_array | restore_mapping | regexp | reg_assoc | sprintf_pad
-  | sprintf
+  | sprintf | unique_mapping | save_nested_map
   deriving Repr, DecidableEq
 
 def Ctor.ofName (s : String) : Option Ctor :=
@@ -181,13 +181,15 @@ def Ctor.ofName (s : String) : Option Ctor :=
   | "reg_assoc" => some .reg_assoc
   | "sprintf_pad" => some .sprintf_pad
   | "sprintf" => some .sprintf
+  | "unique_mapping" => some .unique_mapping
+  | "save_nested_map" => some .save_nested_map
   | _ => none
 
 /-- which limit bounds the result of a constructor -/
 def limitOfC (lim : Limits) : Ctor → Int
   | .allocate | .aggregate | .add_array | .add_array_self | .slice | .explode | .explode0 | .copy_array | .sort_array | .map_array | .filter_array | .unique_array | .array_sub | .array_and | .keys | .values | .regexp | .reg_assoc | .restore_array => lim.maxArray
   | .allocate_buffer | .add_buffer => lim.maxBuffer
-  | .map_insert | .map_aggregate | .map_add | .copy_mapping | .allocate_mapping | .filter_mapping | .map_mapping | .map_compose | .map_compose_eq | .restore_mapping => lim.maxMapping
+  | .map_insert | .map_aggregate | .map_add | .copy_mapping | .allocate_mapping | .filter_mapping | .map_mapping | .map_compose | .map_compose_eq | .restore_mapping | .unique_mapping => lim.maxMapping
   -- nesting depths reported by the LPC side: bounded by MAX_SAVE_SVALUE_DEPTH (copy, and restore since c9a3442)
   | .copy_nested | .restore_nested => (NV.Gen.C04.maxSaveDepth : Int)
   | _ => lim.maxString
